@@ -22,6 +22,8 @@ CHECKS = {
  "C18": dict(engine="pathfork", level=("model_checking", "Path-by-path symbolic execution of the real callback / training-loop code: z3 decides the feasibility of every branch on the symbolic inputs (pathfork), every feasible path within the stated bounds is executed on the real code and compared with an independent reference. Bounded, exhaustive within the bounds."), note="Trusted: vf/pathfork.py (fork-on-branch executor), z3; stubs listed in the evidence.", tech="pathfork with symbolic REAL metric sequences: z3 decides every comparison of the real EarlyStopping code; stop epoch vs reference rule", design="2/C18"),
  "C13": dict(engine="pathfork", level=("model_checking", "Path-by-path symbolic execution of the real statistics code: z3 decides the feasibility of every branch on the symbolic inputs (pathfork); the merge routine is checked for ALL real data (symbolic real sums) and bounded block sizes, the sampling schedule for all bounded (num_samples, num_chains, burn_in, steps). Bounded, exhaustive within the bounds."), note="Trusted: vf/pathfork.py, z3; nn_state.sample is a recording stub (the chain itself is C05).", tech="pathfork: real _update_statistics on symbolic real sufficient statistics (z3 decides equality with the union's statistics); schedule/chunking paths of the real statistics() vs one-pass statistics", design="2/C13"),
  "C07": dict(engine="symtorch+z3", tech="real fit/_shuffle_data executed with a SYMBOLIC permutation (z3 Int index vectors, Distinct) and symbolic randint draws; one z3 query per epoch over all permutations decides pairing / partition / negative-row source", design="2/C07"),
+ "C16": dict(engine="symtorch+z3", tech="structural induction: one solver-checked step per operator overload with stub children returning arbitrary symbolic vectors; z3 on residuals; random trees vs interpreter", design="2/C16"),
+ "C20": dict(engine="symtorch+z3", tech="symbolic execution of constructors / reinitialise / fit guards / a symbolic SGD training run with a symbolic random tape; identities decided by z3, identity/independence facts executed", design="2/C20"),
  "C15": dict(engine="symtorch+z3", tech="symbolic execution of every cplx function vs complex-scalar arithmetic; z3 on residuals", design="2/C15"),
 }
 CHECKS.update(json.load(open(os.path.join(HERE, "bin", "manifest_extra.json"))) if os.path.exists(os.path.join(HERE, "bin", "manifest_extra.json")) else {})
